@@ -575,13 +575,44 @@ func c07FunctionAlwaysAnnounced(p *Prog, r *Report, rule string) {
 			allowed := false
 			gs := rawGuards(b)
 			if len(gs) > 0 {
-				g := gs[0] // the nearest dominating condition
-				pth := Path(g.Cond)
-				if bo, isB := g.Cond.(*ssa.BinOp); isB {
-					pth = Path(bo.X) + " " + Path(bo.Y)
-				}
-				if strings.Contains(pth, "."+FN("Feature.role")) || strings.Contains(pth, "Role()") || strings.Contains(pth, "."+FN("Feature.operations")+"[]") {
-					allowed = true
+				// the nearest dominating condition, with named booleans (ok := a || b) expanded into their parts
+				near := gs[0].If
+				for _, g := range expandPhiGuards(gs, 0) {
+					if g.If != near {
+						continue
+					}
+					var mentions func(v ssa.Value, d int) bool
+					mentions = func(v ssa.Value, d int) bool {
+						if v == nil || d > 5 {
+							return false
+						}
+						pth := Path(v)
+						if strings.Contains(pth, "."+FN("Feature.role")) || strings.Contains(pth, "Role()") || strings.Contains(pth, "."+FN("Feature.operations")+"[]") {
+							return true
+						}
+						switch x := v.(type) {
+						case *ssa.BinOp:
+							return mentions(x.X, d+1) || mentions(x.Y, d+1)
+						case *ssa.UnOp:
+							return mentions(x.X, d+1)
+						case *ssa.Phi:
+							for _, e := range x.Edges {
+								if mentions(e, d+1) {
+									return true
+								}
+							}
+							// the conditions that chose between the edges
+							for _, pb := range x.Block().Preds {
+								if ifi, ok := pb.Instrs[len(pb.Instrs)-1].(*ssa.If); ok && mentions(ifi.Cond, d+1) {
+									return true
+								}
+							}
+						}
+						return false
+					}
+					if mentions(g.Cond, 0) {
+						allowed = true
+					}
 				}
 			}
 			if !allowed {
